@@ -781,8 +781,9 @@ func (q *pathQ) reach(b *ssa.BasicBlock, idx int) (ssa.Instruction, []*ssa.Basic
 	return nil, nil
 }
 
-// phiConstSucc: entering block s from pred p, if s branches on a phi whose incoming value from p is a
-// boolean constant, only one successor of s is feasible. Returns that successor index or -1.
+// phiConstSucc: entering block s from pred p, if s branches on a phi (boolean, or compared with nil)
+// whose incoming value from p is decided — a constant, or a value the edge p→s itself established as
+// nil / non-nil — only one successor of s is feasible. Returns that successor index or -1.
 func phiConstSucc(p, s *ssa.BasicBlock) int {
 	if len(s.Instrs) == 0 {
 		return -1
@@ -791,6 +792,7 @@ func phiConstSucc(p, s *ssa.BasicBlock) int {
 	if !ok {
 		return -1
 	}
+	a := normCond(ifi.Cond, true) // atom of successor 0
 	cond := ifi.Cond
 	neg := false
 	for {
@@ -801,21 +803,83 @@ func phiConstSucc(p, s *ssa.BasicBlock) int {
 		neg = !neg
 		cond = u.X
 	}
-	phi, ok := cond.(*ssa.Phi)
-	if !ok || phi.Block() != s {
+	if phi, ok := cond.(*ssa.Phi); ok && phi.Block() == s {
+		for i, pr := range s.Preds {
+			if pr == p {
+				if c, ok := boolConst(phi.Edges[i]); ok {
+					if c != neg {
+						return 0
+					}
+					return 1
+				}
+			}
+		}
 		return -1
 	}
-	for i, pr := range s.Preds {
-		if pr == p {
-			if c, ok := boolConst(phi.Edges[i]); ok {
-				if c != neg {
-					return 0
+	// nil comparison of a phi
+	if (a.Kind == "nil" || a.Kind == "nonnil") && a.V != nil {
+		if phi, ok := a.V.(*ssa.Phi); ok && phi.Block() == s {
+			for i, pr := range s.Preds {
+				if pr != p {
+					continue
 				}
-				return 1
+				switch edgeNilness(p, s, phi.Edges[i]) {
+				case 1: // non-nil
+					if a.Kind == "nonnil" {
+						return 0
+					}
+					return 1
+				case -1:
+					if a.Kind == "nil" {
+						return 0
+					}
+					return 1
+				}
 			}
 		}
 	}
 	return -1
+}
+
+// edgeNilness: what is known about value e when control flows p→s: 1 non-nil, -1 nil, 0 unknown.
+func edgeNilness(p, s *ssa.BasicBlock, e ssa.Value) int {
+	if isNilConst(e) {
+		return -1
+	}
+	if _, ok := e.(*ssa.MakeInterface); ok {
+		return 1
+	}
+	if len(p.Instrs) == 0 {
+		return 0
+	}
+	if ifi, ok := p.Instrs[len(p.Instrs)-1].(*ssa.If); ok {
+		for si, sb := range p.Succs {
+			if sb != s || (p.Succs[0] == p.Succs[1]) {
+				continue
+			}
+			at := normCond(ifi.Cond, si == 0)
+			if at.V != nil && sameValue(at.V, e) {
+				if at.Kind == "nonnil" {
+					return 1
+				}
+				if at.Kind == "nil" {
+					return -1
+				}
+			}
+		}
+	}
+	// dominating knowledge about e at p
+	for _, at := range dominatingAtoms(p) {
+		if at.V != nil && sameValue(at.V, e) {
+			if at.Kind == "nonnil" {
+				return 1
+			}
+			if at.Kind == "nil" {
+				return -1
+			}
+		}
+	}
+	return 0
 }
 
 // isNoReturnCall: calls that terminate the process (control never continues past them).
@@ -942,6 +1006,33 @@ func (ge *guardEnv) passEdges(f *ssa.Function, g Guard, depth int) map[Edge]bool
 		if g.Match(ge.w, f, ea.A) {
 			edges[ea.E] = true
 			continue
+		}
+		// err := a(); if err == nil { err = b() }; if err != nil {...}: the nil edge of phi(a|b) establishes
+		// g if every incoming value that can be nil there establishes g
+		if phi, ok := ea.A.V.(*ssa.Phi); ok && (ea.A.Kind == "nil" || ea.A.Kind == "true") && phi.Block() == ea.E.From {
+			all, any := true, false
+			for i, e := range phi.Edges {
+				if ea.A.Kind == "nil" && edgeNilness(phi.Block().Preds[i], phi.Block(), e) == 1 {
+					continue // this incoming value is known non-nil: cannot take the nil edge
+				}
+				any = true
+				sub := Atom{Kind: ea.A.Kind, V: e}
+				okE := g.Match(ge.w, f, sub)
+				if !okE && depth > 0 {
+					if c := valueCall(e); c != nil {
+						if h := staticCallee(c); h != nil && h.Blocks != nil && strings.HasPrefix(pkgPathOf(h), modPath) {
+							okE = ge.ensuresAt(c, h, g, depth-1)
+						}
+					}
+				}
+				if !okE {
+					all = false
+				}
+			}
+			if all && any {
+				edges[ea.E] = true
+				continue
+			}
 		}
 		if depth > 0 && (ea.A.Kind == "nil" || ea.A.Kind == "true") {
 			if c := atomCall(ea.A); c != nil {
